@@ -51,6 +51,18 @@ def make_pool(rng, size=None, style=None):
         add(stem[:514] + bytes([stem[514] ^ 0x10]) + b"\x01")
         return pool
 
+    if style == "deepcomb":
+        n = 172
+        base = bytes(byte() for _ in range(n))
+        add(base)
+        for pos in range(340):
+            b = bytearray(base)
+            nib = (b[pos // 2] >> 4) if pos % 2 == 0 else (b[pos // 2] & 15)
+            new = (nib + 1 + rng.randrange(15)) % 16
+            b[pos // 2] = (new << 4 | (b[pos // 2] & 15)) if pos % 2 == 0 else ((b[pos // 2] & 0xF0) | new)
+            add(bytes(b))
+        return pool
+
     if style == "comb":
         n = rng.choice([33, 36, 40, 48])
         base = bytes(byte() for _ in range(n))
@@ -92,6 +104,23 @@ def make_pool(rng, size=None, style=None):
         for p in prefixes:
             for s in suffixes:
                 add(p + s)
+        # asymmetry: under one prefix only, one or two keys leave the shared stem at some
+        # nibble; while they exist that copy's extension is split one nibble earlier or later
+        # than the other copy's, and deleting them makes the two coincide again
+        if rng.random() < 0.7:
+            for p in prefixes:
+                r = rng.random()
+                if r < 0.4:
+                    # a key that leaves the shared stem at one of its first nibbles
+                    s = bytearray(rng.choice(suffixes))
+                    j = min(rng.choice([0, 0, 0, 1, len(s) - 1]), len(s) - 1)
+                    s[j] ^= rng.choice([0x10, 0x10, 0x01, 0x20])
+                    add(p + bytes(s[: j + 1]) + bytes(byte() for _ in range(rng.choice([0, 1, 2]))))
+                elif r < 0.7:
+                    # a cousin: the prefix with its last nibble changed
+                    q = bytearray(p)
+                    q[-1] ^= rng.choice([0x01, 0x02, 0x03])
+                    add(bytes(q) + bytes(byte() for _ in range(rng.choice([1, 2, 3]))))
         pool.mirror = plen
         return pool
 
